@@ -50,6 +50,7 @@ type Monitors struct {
 	lastCommit   map[[2]int]uint64 // per incarnation: last CommitIndex seen
 	lastTerm     map[int]uint64    // per node: last CurrentTerm seen (across restarts)
 	grants       map[grantKey]string
+	grantInc     map[grantKey]int
 	cfgIdx       map[int][]uint64 // per node: indexes of configuration entries in durable log (maintained lazily)
 	serverPanics []string
 	notify       map[[2]int][]bool
@@ -77,7 +78,7 @@ type Monitors struct {
 func newMonitors(w *World) *Monitors {
 	return &Monitors{w: w, agreed: map[uint64]fact{}, leaders: map[uint64]int{}, senders: map[uint64]int{}, streams: map[[2]int]*fsmStream{},
 		lastCommit: map[[2]int]uint64{}, lastTerm: map[int]uint64{}, grants: map[grantKey]string{}, notify: map[[2]int][]bool{}, leadGains: map[[2]int]int{},
-		storedIDs: map[string]bool{}, transitions: map[[2]int]int{}, wasLeader: map[[2]int]bool{}, leaderAt: map[uint64]leaderRec{}, restoreFloor: map[[2]int]uint64{}, floorByData: map[string]uint64{}, isSeen: map[string]*isRec{}, electCommit: map[[2]int]uint64{}, reported: map[int][3]uint64{}, reportedCfg: map[int]string{}}
+		storedIDs: map[string]bool{}, transitions: map[[2]int]int{}, wasLeader: map[[2]int]bool{}, leaderAt: map[uint64]leaderRec{}, restoreFloor: map[[2]int]uint64{}, floorByData: map[string]uint64{}, isSeen: map[string]*isRec{}, electCommit: map[[2]int]uint64{}, reported: map[int][3]uint64{}, reportedCfg: map[int]string{}, grantInc: map[grantKey]int{}}
 }
 
 // rootCause records a violation that is the origin of others: every later
@@ -379,8 +380,13 @@ func (m *Monitors) OnReply(msg *Msg) {
 			cand := string(req.ID)
 			if prev, ok := m.grants[k]; ok && prev != cand {
 				m.fail("C06", "two-grants-one-term", "n%d granted its vote in term %d to %s and to %s", msg.To, req.Term, prev, cand)
+				if pi := m.grantInc[k]; pi != msg.ToInc {
+					// the first grant was durably recorded by an earlier incarnation: the restart lost it
+					m.fail("C10", "vote-not-restored", "n%d.%d granted its vote in term %d to %s; restarted as n%d.%d it grants term %d to %s", msg.To, pi, req.Term, prev, msg.To, msg.ToInc, req.Term, cand)
+				}
 			}
 			m.grants[k] = cand
+			m.grantInc[k] = msg.ToInc
 		}
 	case *raft.AppendEntriesRequest:
 		resp, _ := msg.Resp.Response.(*raft.AppendEntriesResponse)
